@@ -308,6 +308,7 @@ func coordinate(ck *Check, tier string, seed int64) int {
 		return 2
 	}
 	defer os.RemoveAll(tmp)
+	defer os.RemoveAll(filepath.Join(scratchBase(), fmt.Sprintf("vcheck-solo-%d", os.Getpid())))
 	self, _ := os.Executable()
 	type res struct {
 		i   int
